@@ -99,6 +99,13 @@ func stripField(kind, s string) []string {
 var fieldKinds = []string{"title", "line1", "line2", "model", "serial", "version", "name", "platform", "lockedips", "connections", "regin", "regout"}
 
 func (e *stripExec) Exec(cmd string, a []string) string {
+	if cmd == "strip.json" || cmd == "strip.svg" || cmd == "strip.field" {
+		return withDebugVariant(cmd, a, e.exec1)
+	}
+	return e.exec1(cmd, a)
+}
+
+func (e *stripExec) exec1(cmd string, a []string) string {
 	res := ""
 	p := guarded(func() {
 		switch cmd {
@@ -229,7 +236,16 @@ func genC07Wire(r *Rng) {
 		}
 		ptoks := ndHandshake("a")
 		ptoks = append(ptoks, fmt.Sprintf("p%d:8000", total))
-		recs = append(recs, ndRecOf("net.c09", []string{"mode=a", "end=150", ndVoc(nil)}, ptoks, []string{"sub", "h", "m" + ndItems(items)}))
+		// batches that encode to no string at all (an empty list, an empty message, a state with an empty text) sit between
+		// the real ones: nothing may reach the wire for them
+		nothing1, _ := proto.Marshal(&rwp.InboundMessage{})
+		nothing2, _ := proto.Marshal(&rwp.InboundMessage{States: []*rwp.HWCState{{HWCIDs: []uint32{3}, HWCText: &rwp.HWCText{}}}})
+		sub := []string{"sub", "h", "m" + ndItems(nil), "m" + ndItems(items[:3]), "m" + ndItems([][]byte{nothing1}), "m" + ndItems([][]byte{nothing2, nothing1}),
+			"m" + ndItems(items[3:]), "m" + ndItems([][]byte{nothing2})}
+		if si%2 == 1 {
+			sub = []string{"sub", "h", "m" + ndItems(items)}
+		}
+		recs = append(recs, ndRecOf("net.c09", []string{"mode=a", "end=150", ndVoc(nil)}, ptoks, sub))
 	}
 	ndEmitBatch(recs)
 }
